@@ -40,14 +40,14 @@ BATCH = 350
 def model_check(ctx):
     """C17 on the construction machine + the negative control."""
     cfg = "MCUnused_buildq.cfg" if ctx.quick else "MCUnused_build.cfg"
-    r = vlib.run_tlc(ctx, "MCUnused", cfg, workers=min(vlib.NCPU, 8), timeout=3000, coverage=not ctx.quick)
+    r = vlib.run_tlc(ctx, "MCUnused", cfg, workers=4, timeout=3000, coverage=not ctx.quick)
     vlib.tlc_require_ok(r, "C17 invariants on the construction machine")
-    if r.distinct < 1000:
+    if r.distinct < 500:
         raise Inconclusive("construction machine explored only %d states" % r.distinct)
     dead = [a for a in r.coverage_zero if a in ("AddDecl", "StartMS", "ProcessMS", "Finish", "AddRef")]
     if dead:
         raise Inconclusive("construction machine: actions never taken: %s" % dead)
-    neg = vlib.run_tlc(ctx, "MCUnused", "MCUnused_eager.cfg", workers=min(vlib.NCPU, 8), timeout=3000)
+    neg = vlib.run_tlc(ctx, "MCUnused", "MCUnused_eager.cfg", workers=4, timeout=3000)
     if neg.violated != "Confluence":
         raise Inconclusive("negative control: the eager (order-dependent) construction did not violate Confluence (%s)" % neg.violated)
     return r, neg
@@ -331,8 +331,8 @@ def run_variants(ctx, helper, sc, cases, base, through_binary):
 # ---------------------------------------------------------------------------------------------
 # corpora under file / declaration permutation
 
-REPO_PKGS_QUICK = ["unused", "pattern", "config", "analysis/edit", "internal/sync"]
-REPO_PKGS_THOROUGH = REPO_PKGS_QUICK + ["lintcmd/cache", "lintcmd/runner", "go/ir/irutil", "go/types/typeutil", "analysis/code",
+REPO_PKGS_QUICK = ["unused", "pattern", "config"]
+REPO_PKGS_THOROUGH = REPO_PKGS_QUICK + ["analysis/edit", "internal/sync", "lintcmd/cache", "lintcmd/runner", "go/ir/irutil", "go/types/typeutil", "analysis/code",
                                         "analysis/lint", "analysis/report", "go/loader", "simple", "stylecheck", "go/ir", "knowledge"]
 
 
@@ -372,7 +372,7 @@ def run_corpora(ctx, helper):
         for fn in sorted(os.listdir(sd)):
             if fn.endswith(".go") and not fn.endswith("_test.go"):
                 shutil.copy(os.path.join(sd, fn), os.path.join(dd, fn))
-    modes = [("both", ctx.seed), ("reverse", 0)] if ctx.quick else [("both", ctx.seed), ("both", ctx.seed + 100), ("files", ctx.seed), ("decls", ctx.seed), ("reverse", 0)]
+    modes = [("both", ctx.seed)] if ctx.quick else [("both", ctx.seed), ("both", ctx.seed + 100), ("files", ctx.seed), ("decls", ctx.seed), ("reverse", 0)]
     samples = []
     for tag, o, flags in (("testdata", orig, ["-raw", "-tests"]), ("repo", rorig, ["-raw"])):
         cache = ctx.tmp("corp-cache-" + tag)
@@ -472,11 +472,11 @@ def run(ctx):
     lap(ctx, "tlc_construction")
     cases, gen_runs = ug.generate(ctx)
     lap(ctx, "tlc_generation")
-    chosen = ug.select(ctx, cases, 60 if ctx.quick else 1500)
-    stats, nontrivial, base = run_perm_add(ctx, helper, chosen, 6 if ctx.quick else 24)
+    chosen = ug.select(ctx, cases, ug.cap(40 if ctx.quick else 1500))
+    stats, nontrivial, base = run_perm_add(ctx, helper, chosen, 4 if ctx.quick else 24)
     lap(ctx, "perm_add")
     vcases_idx = [i for i in range(len(chosen))]
-    vsel = vlib.sample(ctx, vcases_idx, 45 if ctx.quick else 400)
+    vsel = vlib.sample(ctx, vcases_idx, ug.cap(30 if ctx.quick else 400))
     vstats, tr, vsample = run_variants(ctx, helper, sc, [chosen[i] for i in vsel], {n: base[i] for n, i in enumerate(vsel)}, True)
     if not ctx.quick:
         # the merge iterates a Go map: repeat the variant scenario to see more orders
